@@ -2,6 +2,7 @@ package main
 
 import (
 	"fmt"
+	"regexp"
 	"go/types"
 	"strings"
 
@@ -14,6 +15,8 @@ type Decls struct {
 	decl  map[string]string // name -> full declaration command
 	n     int
 }
+
+var freshSymRe = regexp.MustCompile(`![0-9]+(\)|\s|$)`)
 
 func NewDecls() *Decls { return &Decls{decl: map[string]string{}} }
 
@@ -98,6 +101,8 @@ type State struct {
 	dead    bool
 	havocs  []havocEvent
 	formal  *specDef // non-nil: definitional state of a spec function (heap maps are formals)
+	pcSet   map[string]bool
+	alloc0  Term
 }
 
 func (st *State) top() *Frame { return st.frames[len(st.frames)-1] }
@@ -107,6 +112,7 @@ func (st *State) clone() *State {
 		cells: make(map[*Cell]Value, len(st.cells)), heap: make(map[string]Term, len(st.heap)),
 		pc: append([]Term(nil), st.pc...), alloc: st.alloc, assign: append([]Region(nil), st.assign...),
 		freshLo: st.freshLo, steps: st.steps, loopHd: map[*Loop]*State{}, loopIt: map[*Loop]int{},
+		alloc0: st.alloc0,
 		path: append([]string(nil), st.path...), havocs: append([]havocEvent(nil), st.havocs...), formal: st.formal,
 	}
 	for k, v := range st.cells {
@@ -142,6 +148,16 @@ func (st *State) assume(t Term) {
 	if t.IsFalse() {
 		st.dead = true
 	}
+	if st.pcSet == nil {
+		st.pcSet = map[string]bool{}
+		for _, p := range st.pc {
+			st.pcSet[p.S] = true
+		}
+	}
+	if st.pcSet[t.S] {
+		return
+	}
+	st.pcSet[t.S] = true
 	st.pc = append(st.pc, t)
 }
 
@@ -283,6 +299,13 @@ func (x *Exec) loadPtr(st *State, p PtrV) Value {
 // loadedFacts assumes the well-formedness of values read from the heap
 // (slice headers: 0 <= len <= cap, 0 <= off; references below the allocation counter).
 func (x *Exec) loadedFacts(st *State, t types.Type, v Value) {
+	bound := func(ref Term) Term {
+		// references read from the unmodified entry heap were allocated before the call
+		if st.alloc0.S != "" && !strings.Contains(ref.S, "@h") && !strings.Contains(ref.S, "@e") && !strings.Contains(ref.S, "(store") && !freshSymRe.MatchString(ref.S) {
+			return st.alloc0
+		}
+		return st.alloc
+	}
 	switch u := v.(type) {
 	case SliceV:
 		if _, isLit := u.Len.IsLit(); !isLit {
@@ -290,10 +313,10 @@ func (x *Exec) loadedFacts(st *State, t types.Type, v Value) {
 		} else {
 			st.assume(Le(u.Len, u.Cap))
 		}
-		st.assume(And(Le(IntLit(0), u.Off), Le(IntLit(0), u.Arr), Lt(u.Arr, st.alloc)))
+		st.assume(And(Le(IntLit(0), u.Off), Le(IntLit(0), u.Arr), Lt(u.Arr, bound(u.Arr))))
 	case PtrV:
 		if u.Kind == PHeap {
-			st.assume(Lt(u.Ref, st.alloc))
+			st.assume(Lt(u.Ref, bound(u.Ref)))
 		}
 	case StructV:
 		for i, f := range u.Fields {
